@@ -6,7 +6,7 @@ import ast
 from sa.engine.cfg import exc_name, handler_names
 from sa.engine.facts import Bad, F
 from sa.engine.pattern import P, u, dump, find_all
-from sa.engine.source import norm, own_walk
+from sa.engine.source import norm, own_walk, stmt_of
 from .common import MEM, writer_table
 
 EXPLANATION = ("Memory object streams: clone counters written only by __post_init__ (+1) and an idempotent close (-1 exactly with the "
@@ -147,13 +147,34 @@ def check(ctx):
                    detail="" if cl else "waiting_receivers is not cleared when the last sender closes (a later send_nowait would hand an item to a released receiver)",
                    by=("clear()",))
 
-    # statistics
-    stf = ctx.fn("_MemoryObjectStreamState.statistics", MEM)
-    s = ctx.sites(stf, "return MemoryObjectStreamStatistics(len(self.buffer), self.max_buffer_size, self.open_send_channels, "
-                       "self.open_receive_channels, len(self.waiting_senders), len(self.waiting_receivers))")
-    ctx.ob("R13-a", stf, "statistics() reports the state fields themselves", len(s) == 1,
-           detail="" if s else "statistics() no longer reports (len(buffer), max_buffer_size, open_send_channels, open_receive_channels, "
-           "len(waiting_senders), len(waiting_receivers)) in this order", by=("field-for-field",))
+    # statistics: wherever the statistics record is built, every field reports the state field of the same meaning (positional or
+    # keyword arguments; in the state class itself or, when that helper was inlined, in the streams' own statistics())
+    rel_, scls = ctx.repo.cls("MemoryObjectStreamStatistics", MEM)
+    fields_ = [x.target.id for x in scls.body if isinstance(x, ast.AnnAssign) and isinstance(x.target, ast.Name)]
+    want_ = ["len({S}.buffer)", "{S}.max_buffer_size", "{S}.open_send_channels", "{S}.open_receive_channels", "len({S}.waiting_senders)", "len({S}.waiting_receivers)"]
+    builds = []
+    for f_ in ctx.repo.funcs_in(MEM):
+        for n_ in own_walk(f_.node):
+            if isinstance(n_, ast.Call) and isinstance(n_.func, ast.Name) and n_.func.id == "MemoryObjectStreamStatistics":
+                builds.append((f_, n_))
+    ctx.need("R13-a", ctx.fn("MemoryObjectReceiveStream.statistics", MEM), "construction of the statistics record", len(builds), 1)
+    for f_, c_ in builds:
+        vals = {}
+        for i_, a_ in enumerate(c_.args):
+            if i_ < len(fields_):
+                vals[fields_[i_]] = a_
+        for k_ in c_.keywords:
+            if k_.arg:
+                vals[k_.arg] = k_.value
+        S = "self" if f_.cls == "_MemoryObjectStreamState" else "self._state"
+        ok = len(fields_) == 6 and all(fl in vals and ast.unparse(vals[fl]) == w.format(S=S) for fl, w in zip(fields_, want_))
+        ctx.ob("R13-a", f_, "statistics() reports the state fields themselves", ok, node=stmt_of(c_),
+               detail="" if ok else "the statistics record is not (len(buffer), max_buffer_size, open_send_channels, open_receive_channels, "
+               "len(waiting_senders), len(waiting_receivers)) field for field", by=("field-for-field",))
+    for q_ in ("MemoryObjectReceiveStream.statistics", "MemoryObjectSendStream.statistics"):
+        f_ = ctx.fn(q_, MEM)
+        ok = bool(ctx.sites(f_, "return self._state.statistics()")) or any(bf is f_ for bf, _ in builds)
+        ctx.ob("R13-a", f_, f"{q_} reports the shared state", ok, detail="" if ok else "neither delegates to the state's statistics() nor builds the record itself", by=("delegation / construction",))
 
     # ---- R13-c error table ------------------------------------------------------------------------------------------
     rn = ctx.fn("MemoryObjectReceiveStream.receive_nowait", MEM)
